@@ -492,6 +492,9 @@ ViolCb(sh, ev) ==
           {<<"C01", "stale_sub_token_after_sibling_removed_in_batch">>})
   \cup If(~sh.fuzzy[s] /\ ~CauseOk(sh, ev) /\ s \notin sh.shifted,
           {<<"C01", "cb_without_cause">>}
+          \* after a failed registration: what the rejected source left behind reached somebody else (C15)
+          \cup If(sh.faultSeen /\ (\E x \in sh.S : sh.fuzzy[x] /\ sh.life[x] # "in"),
+                  {<<"C15", "leftover_of_failed_registration_reached_other_source">>})
           \cup If(IsTimer(sh, s) /\ ~sh.armed[s], {<<"C05", "cancelled_arming_fired">>})
           \cup If(IsTimer(sh, s) /\ sh.armed[s], {<<"C05", "wrong_deadline_payload">>})
           \cup If(Kind(sh, s) = "ping", {<<"C03", "cb_without_ping">>})
@@ -712,7 +715,11 @@ ViolSnap(sh, ev) ==
              /\ ~(\E x \in sh.S : sh.fuzzy[x] /\ IsTimer(sh, x)) /\ ~sh.prevDispErr
              /\ \E x \in sh.S : IsTimer(sh, x) /\ sh.life[x] = "out",
           {<<"C06", "removed_source_left_registrations">>})
-  \cup If(sh.cmpSnap /\ sh.lastSnap.valid /\ SnapDiffers(sh.lastSnap, ev),
+  \* (kernel entries of the fds of the rejected source itself are its own business: a composite written with `?` leaves
+  \*  the sub-sources it had registered before the failing step in the poller -- they are "fuzzy" from then on)
+  \cup If(sh.cmpSnap /\ sh.lastSnap.valid
+          /\ (\/ {e \in SnapEpoll6(sh.lastSnap) : e[1] \notin FuzzyFds(sh)} # {e \in SnapEpoll6(ev) : e[1] \notin FuzzyFds(sh)}
+              \/ SnapDiffers([sh.lastSnap EXCEPT !.epoll = <<>>], [ev EXCEPT !.epoll = <<>>])),
           {<<"C15", "failed_insert_changed_loop_state">>})
   \* ... in particular the set of sources that get lifecycle notifications
   \cup If(sh.cmpSnap /\ sh.lastSnap.valid /\ sh.lastSnap.life # ev.life,
